@@ -223,9 +223,9 @@ Lemma url_comps_wf s : forallb wf_opt (url_comps s) = true.
 Proof.
   unfold url_comps. cbv zeta. cbn [forallb]. rewrite !opt_str_wf. reflexivity.
 Qed.
-Lemma tok_tokens_ok src sep : items_ok IList (tok_tokens src sep) = true.
+Lemma tok_tokens_ok ch src sep : items_ok IList (tok_tokens ch src sep) = true.
 Proof.
-  unfold tok_tokens. induction (map SplitModel.trim (SplitModel.tokens sep src)) as [|t u IH]; [reflexivity|].
+  unfold tok_tokens. induction (map SplitModel.trim (smq ch sep false 0 src)) as [|t u IH]; [reflexivity|].
   cbn [map]. rewrite items_ok_cons, IH. destruct t; reflexivity.
 Qed.
 Lemma comp_text_fault x g : comp_text x = Fault g -> g = Abort.
@@ -520,6 +520,82 @@ Proof.
     destruct (as_cont co) as [[[[[i k] a] al] xs]|g] eqn:Ac; cbn [bind]; [|apply as_cont_fault in Ac; subst; cbn; pf].
     match goal with |- Safe (if ?c then _ else _) => destruct c end; [cbn; pf|].
     destruct (query_walk i po xs); [exact G|cbn; pf].
+  - (* TokSetChar *)
+    destruct (get w t) as [x|g] eqn:Gh; cbn [bind]; [|apply get_fault in Gh; subst; cbn; pf].
+    apply get_ok in Gh. pose proof (WF_lookup _ _ _ W Gh) as Wx.
+    match goal with |- Safe (if ?c then _ else _) => destruct c end; [cbn; pf|].
+    destruct x; try (cbn; pf). destruct which as [|[|[|?]]]; try (cbn; pf);
+      (putgood W B; rewrite wf_tok in *; exact Wx).
+  - (* TokSetTokens *)
+    apply setter_safe; [exact G| |].
+    + intros po x po' old F Wp Wx. destruct po; try discriminate.
+      rewrite wf_tok in Wp. apply andb_prop in Wp as (Wab & Wc).
+      destruct x as [[| | | | | | | |[] ? ? ? ?| |]|]; try discriminate; inv F; rewrite wf_tok; rewrite Wab; [exact Wx|reflexivity].
+    + intros po x g F. destruct po; try (inv F; reflexivity).
+      destruct x as [[| | | | | | | |[] ? ? ? ?| |]|]; inv F; reflexivity.
+  - (* TokListRemoveAt *)
+    destruct (get w t) as [x|g] eqn:Gh; cbn [bind]; [|apply get_fault in Gh; subst; cbn; pf].
+    apply get_ok in Gh. pose proof (WF_lookup _ _ _ W Gh) as Wx.
+    destruct x as [| | | | |a0 b0 [[| | | | | | | |[] k ad al xs| |]|] ch| | | | |]; try (cbn; pf).
+    rewrite wf_tok in Wx. apply andb_prop in Wx as (Wab & Wc). cbn [wf_opt] in Wc. rewrite wf_cont_items in Wc.
+    destruct (in_range xs idx) as [n|] eqn:R; cbn [Safe].
+    + match goal with |- match hand_back w ?r ?h ?na ?l with _ => _ end =>
+        pose proof (hand_back_good w r h na l) as HG; destruct (hand_back w r h na l) end.
+      apply HG; [apply WF_put; [exact W|]|now apply below_put|].
+      * rewrite wf_tok, Wab. cbn [wf_opt andb]. rewrite wf_cont_items. now apply rem_nth_ok.
+      * pose proof (items_ok_nth IList xs n Wc (in_range_lt xs idx n R)) as N. now apply andb_prop in N as (_ & N).
+    + pose proof (hand_back_good w None (held w) (naddr w) (ledger w) W B eq_refl) as HG.
+      destruct (hand_back w None (held w) (naddr w) (ledger w)). exact HG.
+  - (* TokListAppend *)
+    destruct (get w t) as [x|g] eqn:Gt; cbn [bind]; [|apply get_fault in Gt; subst; cbn; pf].
+    destruct (Nat.eqb t h); [cbn; pf|].
+    destruct (get w h) as [y|g] eqn:Gh; cbn [bind]; [|apply get_fault in Gh; subst; cbn; pf].
+    destruct (storable y) eqn:Sy; cbn [negb]; [|cbn; pf].
+    apply get_ok in Gt, Gh. pose proof (WF_lookup _ _ _ W Gt) as Wx. pose proof (WF_lookup _ _ _ W Gh) as Wy.
+    destruct x as [| | | | |a0 b0 [[| | | | | | | |[] k ad al xs| |]|] ch| | | | |]; try (cbn; pf).
+    rewrite wf_tok in Wx. apply andb_prop in Wx as (Wab & Wc). cbn [wf_opt] in Wc. rewrite wf_cont_items in Wc.
+    cbn [Safe]. split; cbn [held next].
+    + apply WF_put; [now apply WF_drop|]. rewrite wf_tok, Wab. cbn [wf_opt andb].
+      rewrite wf_cont_items, items_ok_app, Wc, items_ok_cons. cbn. now rewrite Wy.
+    + apply below_put. now apply below_drop.
+  - (* MemberAppend *)
+    destruct (get w h) as [x|g] eqn:Gh; cbn [bind]; [|apply get_fault in Gh; subst; cbn; pf].
+    apply get_ok in Gh. pose proof (WF_lookup _ _ _ W Gh) as Wx.
+    assert (MA : forall m t0, match member_app m t0 with Ok (m', _) => wf_opt m' = true | Fault g => g = Abort end).
+    { intros [[]|] t0; cbn [member_app]; try reflexivity; destruct (app_text _ t0); reflexivity. }
+    destruct x as [| | | |pk pv|a0 b0 l0 ch|us cs| | | |]; try (cbn; pf).
+    + rewrite wf_pair in Wx. apply andb_prop in Wx as (Wk & Wv).
+      destruct sel as [|[|?]]; try (cbn; pf).
+      * pose proof (MA pk t) as M. destruct (member_app pk t) as [[m' d]|g]; cbn [bind]; [|subst; cbn; pf].
+        putgood W B. rewrite wf_pair. now rewrite M, Wv.
+      * pose proof (MA pv t) as M. destruct (member_app pv t) as [[m' d]|g]; cbn [bind]; [|subst; cbn; pf].
+        putgood W B. rewrite wf_pair. now rewrite M, Wk.
+    + rewrite wf_tok in Wx. apply andb_prop in Wx as (Wab & Wc). apply andb_prop in Wab as (Wa & Wb).
+      destruct sel as [|[|?]]; try (cbn; pf).
+      * pose proof (MA a0 t) as M. destruct (member_app a0 t) as [[m' d]|g]; cbn [bind]; [|subst; cbn; pf].
+        putgood W B. rewrite wf_tok. now rewrite M, Wb, Wc.
+      * pose proof (MA b0 t) as M. destruct (member_app b0 t) as [[m' d]|g]; cbn [bind]; [|subst; cbn; pf].
+        putgood W B. rewrite wf_tok. now rewrite M, Wa, Wc.
+    + rewrite wf_url_items in Wx. destruct (sel <? length cs)%nat; [|cbn; pf].
+      pose proof (MA (nth_comp cs sel) t) as M.
+      destruct (member_app (nth_comp cs sel) t) as [[m' d]|g]; cbn [bind]; [|subst; cbn; pf].
+      putgood W B. rewrite wf_url_items. now apply forallb_wf_upd.
+  - (* SetLen *)
+    destruct (get w h) as [x|g] eqn:Gh; cbn [bind]; [|apply get_fault in Gh; subst; cbn; pf].
+    destruct (k <? 0).
+    + destruct x; try (cbn; pf); exact G.
+    + destruct x as [| | |mb| | | | | | |]; try (cbn; pf).
+      match goal with |- Safe (if ?c then _ else _) => destruct c end; [cbn; pf|].
+      putgood W B. reflexivity.
+  - (* NewFromStream *)
+    assert (ST : forall f, stream_text c v k content pos = Fault f -> f = Abort).
+    { unfold stream_text. intros f. destruct ((pos <? 0) || (Z.of_nat (length content) <? pos)); [intros E; inv E; reflexivity|].
+      destruct k, v; try discriminate; try (intros E; inv E; reflexivity);
+        (destruct (negb (pos =? 0)); intros E; inv E; reflexivity). }
+    destruct (stream_text c v k content pos) as [[bo|]|g] eqn:Es; cbn [bind]; [| |rewrite (ST g eq_refl); cbn; pf].
+    + apply fresh_safe; [exact G|]. destruct c; reflexivity.
+    + cbn [Safe]. pose proof (hand_back_good w None (held w) (naddr w) (ledger w) W B eq_refl) as HG.
+      destruct (hand_back w None (held w) (naddr w) (ledger w)). exact HG.
 Qed.
 
 Lemma good_w0 : Good w0.
